@@ -29,6 +29,16 @@ def rat(x):
     return [f.numerator, f.denominator]
 
 
+def same_sparse(a, b):
+    """sparse matrices equal (shape and every entry); scipy's `!=` degenerates to a bool for different shapes"""
+    if a is None or b is None:
+        return a is b
+    if a.shape != b.shape:
+        return False
+    d = (a != b)
+    return (d.nnz == 0) if hasattr(d, 'nnz') else (not d)
+
+
 def make_layouts(rng, n_eng, n_lines, same=False):
     from scipy import sparse
     from pero_ocr.core.layout import PageLayout, RegionLayout, TextLine
@@ -122,7 +132,7 @@ def _run(ctx):
             win = cs.index(best) if best > 0 else 0
             src = list(before[win].lines_iterator())[li]
             ok_fields = (ml.transcription == src.transcription and ml.characters == src.characters
-                         and (ml.logits != src.logits).nnz == 0 and ml.logits.shape == src.logits.shape)
+                         and same_sparse(ml.logits, src.logits))
             if not ok_fields:
                 ctx.violation('wrong-engine', 'merged line does not carry text+logits+charset of the first most confident engine', inp, li)
             if best > 0:
@@ -133,7 +143,7 @@ def _run(ctx):
                     or list(ml.heights) != list(o.heights):
                 ctx.violation('geometry-changed', 'ids or geometry altered by merging', inp, li)
             if same:
-                if ml.transcription != o.transcription or (ml.logits != o.logits).nnz != 0 or ml.characters != o.characters:
+                if ml.transcription != o.transcription or not same_sparse(ml.logits, o.logits) or ml.characters != o.characters:
                     ctx.violation('self-merge', 'merging a result with itself changed it', inp, li)
             if n_eng >= 2 and win != 0:
                 ctx.nontriv([it, li])
@@ -182,7 +192,7 @@ def _run(ctx):
                     break
                 for la, lb in zip(a[0].lines_iterator(), ref_in[0].lines_iterator()):
                     ca, cb = la.transcription_confidence, lb.transcription_confidence
-                    if la.transcription != lb.transcription or la.characters != lb.characters or (la.logits != lb.logits).nnz != 0 or \
+                    if la.transcription != lb.transcription or la.characters != lb.characters or not same_sparse(la.logits, lb.logits) or \
                             (ca is None) != (cb is None) or (ca is not None and abs(ca - cb) > 1e-12):
                         ctx.violation('chained:' + name, 'merging an already merged layout again (%s) differs from merging fresh layouts with the same content' % name,
                                       dict(inp, chained=name), [la.transcription, ca], [lb.transcription, cb])
